@@ -832,7 +832,7 @@ PROPS["C02"] = {
 }
 
 # ----------------------------------------------------------------------------- C14
-C14_NFAM = 12
+C14_NFAM = 15
 
 
 def c14_jobs(tier):
@@ -845,7 +845,7 @@ def c14_jobs(tier):
             J("verif_C14_formula", [fam, kind])
             J("verif_C14_support", [fam, kind], mode="fp")
             J("verif_C14_ctor", [fam, kind], mode="fp")
-        J("verif_C14_roundtrip", [fam], mode="fp")
+        J("verif_C14_roundtrip", [fam])
     return jobs
 
 
@@ -858,8 +858,8 @@ PROPS["C14"] = {
     "replay_tol": 1e-6,
     "job_budget_ms": {"quick": 120000, "thorough": 600000},
     "selftest_vars": [],
-    "bounds": {"quick": "12 scalar families (Normal, Laplace, Cauchy, Exponential, Pareto, Gamma, Poisson, Geometric, PowerLaw, GPareto xi>0, ChiSquared, Beta) with symbolic valid parameters: log-density = textbook formula on the support (real interpretation, "
-                        "log/lgamma heads by name, exp-homomorphism), exactly -Inf strictly outside the support (fp), constructors reject parameters strictly outside the valid region (fp), Clone / SetParameters(GetParameters()) / Real64-held parameters give the same log-density (fp, UF-first)",
+    "bounds": {"quick": "15 scalar family instances (Normal, Laplace, Cauchy, Exponential, Pareto, Gamma, Poisson, Geometric, PowerLaw, GPareto xi>0, ChiSquared, GEV xi!=0, Binomial n=3, Binomial after SetN, Beta) with symbolic valid parameters: log-density = textbook formula on the support (real interpretation, "
+                        "log/lgamma heads by name, exp-homomorphism), exactly -Inf strictly outside the support (fp), constructors reject parameters strictly outside the valid region (fp), Clone / SetParameters(GetParameters()) / Real64-held parameters give the same log-density (real interpretation)",
                "thorough": "also Real64-held parameters for the formula, support and constructor obligations"},
     "outside": "normalisation (integration), monotonicity and limits of the CDFs, Cdf' = Pdf, vector and matrix families, wrappers (log-transform, translation, mixtures), the remaining scalar families (Binomial, NegativeBinomial, Categorical, GEV, GeneralizedGamma, Delta), behaviour on the boundary of support / parameter region",
     "assumptions": ["floats read as reals for the formula obligations; log, lgamma, log1p uninterpreted by name"],
